@@ -205,6 +205,10 @@ def snapshot(cpu, with_mem=True):
         elif isinstance(v, list):
             for i, e in enumerate(v):
                 out['%s[%d]' % (k, i)] = e.value if isinstance(e, AbstractRegister) else e
+    if not any(k.startswith('R.') for k in out):
+        # the core register file is not an instance attribute (any more): read it where the accessors read it, so that the comparison still sees it
+        for kk, vv in getattr(regs, '_R', {}).items():
+            out['R.' + kk.name] = vv
     if hasattr(cpu, 'cplog'):
         out['cplog'] = tuple(cpu.cplog)
     if hasattr(cpu, 'mon'):
